@@ -38,6 +38,22 @@ def d1(ctx, prog):
             v = d.value
             if isinstance(v, ast.Compare) and len(v.ops) == 1 and 'counters' in {a for a in astutil.self_attrs_read(v.left)}:
                 masks.append((name, d))
+    # a mask computed for all words at once and read per word (`rows = self.counters > 0` ... `mask = rows[i]`, i the word loop variable):
+    # the per-word row is the mask the rule speaks about, the hoisted comparison is its definition
+    row_alias = {}
+    if len(masks) == 1:
+        base_name, base_def = masks[0]
+        loops = [l for l in ast.walk(f.node) if isinstance(l, ast.For) and isinstance(l.target, ast.Name)]
+        for name, ds in defs.items():
+            if len(ds) == 1 and isinstance(ds[0].value, ast.Subscript) and isinstance(ds[0].value.value, ast.Name) and ds[0].value.value.id == base_name \
+                    and isinstance(ds[0].value.slice, ast.Name) and any(l.target.id == ds[0].value.slice.id and any(x is ds[0] for x in ast.walk(l)) for l in loops) \
+                    and norm(base_def.value.left) == 'self.counters' and len(defs[base_name]) == 1:
+                row_alias[name] = ds[0]
+        if len(row_alias) == 1:
+            (rname, rdef), = row_alias.items()
+            users = [n for n in ast.walk(f.node) if isinstance(n, ast.Name) and n.id == base_name and isinstance(n.ctx, ast.Load)]
+            if len(users) == 1:          # the hoisted comparison is read only through its per-word row
+                masks = [(rname, base_def)]
     key = f'{f.key}::non-empty class mask'
     if len(masks) != 1:
         ctx.fail('C04-D1', key, f'{len(masks)} masks derived from the class counters; exactly one mask must decide which classes take part', f.where())
